@@ -25,3 +25,16 @@ check("C01", "template extraction from generate() (abstract walk of the generato
       "Static: (a) the assembled module skeleton for five representative rule tables parses, resolves all names, orders import-time uses, and enumerates rules consistently; all f-string holes classified (hygiene); generated name families checked for collisions/injectivity. (b) both siblings of every operator, Rule (8 masks x 3 names) and parse_trivia (5 variants) meet the same contract K / specification on every abstract path; failure-recording parity; compiled-constant parity. (c) determinism: no nondeterministic/cross-call source in generators.",
       "Two implementations meeting the same obligations are identical only modulo the trusted primitives and completeness of the obligations; label texts of failures are not compared; known findings F-A2, F-N1, F-V3.", "§4 C01")
 NOT_APPLICABLE.pop("C01", None)
+
+ESC_TECH = "exception-escape analysis over the type-resolved call graph (mypy receiver types, virtual fan-out, address-taken roots), guard-idiom discharge + frozen triage table"
+check("C07", ESC_TECH + "; path-sensitive enumeration of every template (no raise, definite assignment)",
+      "Static: nothing but PestParsingError can escape Parser.parse through any Expression.parse override / ParserState / Stack; no generated-code path raises or reads an unassigned local for entry stacks of 0..2 entries; every runtime helper named by the templates is an escape entry with an empty allowed set; no nondeterministic source in the library.",
+      "Termination and recursion depth are not decided. KeyError for unknown start rules / undefined references is outside the property's quantifier. SAFE triage entries are trusted while the site persists.", "§3.3, §4 C07")
+check("C11", ESC_TECH + "; with_children arity rule; token-start enumeration",
+      "Static: from Parser.from_grammar (scanner state functions, token parser, unescape, Expression constructors, optimizer and all default passes) only PestGrammarError subclasses can escape; from PestGrammarError.__str__ nothing can; every Token is constructed with a start inside the text.",
+      "Termination of the scanner loop, MemoryError and RecursionError are not decided; the reported column being the 'right' one is numeric and not decided.", "§3.3, §4 C11")
+check("C13", ESC_TECH + "; who-may-write and call-site enumeration for the furthest-failure record; " + OPS_TECH,
+      "Static: furthest_pos only written by ParserState.__init__/fail from the defaulted pos; no fail() call site (20 enumerated, library + templates) passes pos; explicit rule_name values are rule names or None; labels never None on any abstract path; rule-frame / neg-pred / suppression bookkeeping restored on every operator exit; nothing can escape PestParsingError.__init__/__str__/detailed_message/expected/expected_labels/join_with_limit/error_context.",
+      "That the line/column/source line shown are those of p is arithmetic (see C14) and not decided.", "§4 C13")
+for _p in ("C07", "C11", "C13"):
+    NOT_APPLICABLE.pop(_p, None)
